@@ -66,6 +66,8 @@ def run(F, chk):
         F3.violation(('anchor-lost', 'Filter::matches/Serialize/from_json'), 'cannot find Filter::matches, impl Serialize for Filter or Filter::from_json')
         return
     check_matches_shape(m, F3)
+    F4 = chk.rule('F4', 'matches() never substitutes a default for an unspecified criterion (no unwrap_or/map_or on a criterion option)')
+    check_no_defaults(m, F4)
     check_field_agreement(m, ser[0], fj, F1)
     check_regex_cache(F, F2)
 
@@ -146,7 +148,7 @@ def check_matches_shape(m, F3):
             F3.violation(('missing-header-passes', m.path, b.term.callee.path.split('::')[-1]),
                          'when %s() is None (message without extended header) the criterion at %s does not return `negated`: such a message could pass an apid/ctid/type/level criterion' % (b.term.callee.path.split('::')[-1], m.loc(b.term.sp)),
                          where=m.loc(b.term.sp))
-    F3.floor('extended-header accessor calls in matches()', n_acc, 7)
+    F3.floor('extended-header accessor calls in matches()', n_acc, 5)
 
 
 def json_keys(body, callee_suffix, argidx):
@@ -233,3 +235,29 @@ def check_regex_cache(F, F2):
                 F2.violation(('regex-cache-unguarded', body.path), 'the case-insensitive literal matcher `payload_as_regex` is built at %s without a dominating test of the ignore-case flag: '
                              'matches() uses it whenever present, so a literal payload filter from this front-end always matches case-insensitively' % body.loc(s.sp), where=body.loc(s.sp))
     F2.floor('stores of Some(..) into payload_as_regex', n, 2)
+
+
+DEFAULTING = re.compile(r'Option::<T>::(unwrap_or|unwrap_or_default|unwrap_or_else|map_or|map_or_else|is_none_or|is_some_and|get_or_insert\w*|or|or_else|xor|zip)$')
+
+
+def check_no_defaults(m, F4):
+    """an unspecified criterion must be skipped, not replaced by a default bound/value"""
+    cfg = CFG(m)
+    E = ExprBuilder(cfg, fold_named=True)
+    F4.fn(m.path)
+    n = 0
+    bad = 0
+    for blk in m.calls():
+        t = blk.term
+        n += 1
+        if DEFAULTING.search(t.callee.path) and t.args:
+            a0 = show(E.operand(t.args[0]))
+            if '(*self).' in a0 or 'self.' in a0:
+                fld = re.search(r'\(\*self\)\.([a-z_]+)', a0)
+                bad += 1
+                F4.violation(('criterion-default', m.path, fld.group(1) if fld else 'x', t.callee.path.split('::')[-1]),
+                             'matches() applies %s to the optional criterion %s at %s: an unspecified criterion then acts like a specified one (e.g. a hidden upper bound)' % (t.callee.path.split('::')[-1], a0[:60], m.loc(t.sp)),
+                             where=m.loc(t.sp))
+    F4.sites += n
+    if not bad:
+        F4.ok(sample={'calls_examined': n, 'defaulting_combinators_on_criteria': 0})
